@@ -50,6 +50,10 @@ def fm(kind, s):
     return _C[kind].fullmatch(s) is not None
 
 
+def _no_json_constant(name):
+    raise ValueError("%s is not JSON" % name)
+
+
 def tag_value_verdict(dt, v):
     """verdict for a tag value string of datatype dt."""
     if dt not in "AifZJHB" or len(dt) != 1:
@@ -62,7 +66,8 @@ def tag_value_verdict(dt, v):
         return (UNSPEC, "number beyond the conversion limit of the interpreter")
     if dt == "J":
         try:
-            val = json.loads(v)
+            # (RFC 8259: NaN, Infinity and -Infinity are not JSON, although Python's parser takes them)
+            val = json.loads(v, parse_constant=_no_json_constant)
         except Exception:
             return (INVALID, "json")
         if not isinstance(val, (list, dict)):
